@@ -14,6 +14,10 @@
      (4 mutating e a)                map / map_with_index / map_mut / map_mut_with_index
      (5 tensor shape colmajor e a)   from_iter(shape, iter_as_records (row / column major).map(e))
      (6 e1 e2 a)                     from_iters::<2>  (adds two containers)
+     (7 kind a)                      a container whose source is a VIEW of container a:
+                                     0 matrix over the column-major interop view of the transposed
+                                     2-d tensor, 1 tensor over the dimension-swapped TensorAccess,
+                                     3 detached constants copy with relabelled indexes
    scalar closures e: (0) the element | (1 c) constant | (2 e) Record::constant(e.number) |
      (3 code c e) | (4 code e1 e2) | (5 e1 e2) e1 at the first index else e2 |
      (6) a clone of a variable of ANOTHER WengertList (number 1)
@@ -85,6 +89,8 @@ Definition dcop (D : nat) (s : sx) : option (cop R) :=
   | SL [SZ 6%Z; e1; e2; a] =>
       match dsexpr 12 e1, dsexpr 12 e2, dnat a with
       | Some e1, Some e2, Some a => Some (OFromIters2 e1 e2 a) | _, _, _ => None end
+  | SL [SZ 7%Z; kind; a] =>
+      match dnat kind, dnat a with Some kind, Some a => Some (OView kind a) | _, _ => None end
   | _ => None
   end.
 
